@@ -4,6 +4,7 @@ import json
 
 from . import common
 from . import ants_common as ac
+from . import c07s
 
 PROP = "C07"
 KINDS_QUICK = [("retry-outcomes", "retry", 2400), ("burst-discard", "burst", 1200), ("deadline-ties(allowed-set)", "ties", 1200),
@@ -80,10 +81,11 @@ def setup(chk):
 
 def run(chk):
     setup(chk)
-    chk.run_proof_gate(ac.PROOFS)
+    chk.run_proof_gate(ac.PROOFS + c07s.PROOFS)
     binary = ac.build(chk)
     if binary:
         try:
+            c07s.run(chk, c07s.corpus_lines())   # stream dispatch-steps (step model AntsSteps.v)
             scale = 1 if chk.tier == "quick" else 12
             res = run_streams(chk, binary, KINDS_QUICK, scale)
             try:
